@@ -11,6 +11,41 @@ import gen
 from common import Case, Issue, q, ql, il, line
 
 
+# --------------------------------------------------------------------------------------
+# theorem-derived float tolerance (lean/SA/Theorems/FloatBounds.lean)
+# --------------------------------------------------------------------------------------
+U53 = Fraction(1, 2**53)  # unit roundoff of IEEE double precision, round to nearest
+# Slack on top of the theorem's bound.  For the code as written the theorem covers EVERY rounding step from the requested
+# target to the returned threshold (rescaling for easy samples, the `1 - r` normalisations, `1.0 / len`, the shift, the
+# index target, the weight, the two products, `1 - la`, the sum), so a factor of 1 is what the theorem gives (observed
+# maximum 0.54, see DESIGN).  What the factor 4 covers is NOT part of the theorem: algebraically equivalent ways of
+# writing the same formulas (e.g. `b + la * (a - b)`, harmless/H2), whose rounding-error constants differ by a small
+# factor from the ones proved for the operation order of the pinned code.
+FLBOUND_SLACK = 4
+_FL_LO, _FL_HI = Fraction(1, 2**200), Fraction(2**200)
+FL_BUCKETS = [(Fraction(0), "=0"), (Fraction(1, 16), "<=1/16"), (Fraction(1, 8), "<=1/8"), (Fraction(1, 4), "<=1/4"),
+              (Fraction(1, 2), "<=1/2"), (Fraction(5, 8), "<=5/8"), (Fraction(3, 4), "<=3/4"), (Fraction(7, 8), "<=7/8"),
+              (Fraction(1), "<=1"), (Fraction(2), "<=2"), (Fraction(4), "<=4")]
+
+
+def fl_in_range(values) -> bool:
+    """the standard model has no underflow / overflow: every non-zero input of moderate binary magnitude"""
+    for v in values:
+        if v != 0 and not (_FL_LO <= abs(Fraction(v)) <= _FL_HI):
+            return False
+    return True
+
+
+def fl_bucket(ratio) -> str:
+    """histogram bucket of an observed |impl - model| / bound ratio (for the evidence file)"""
+    if ratio is None:
+        return "none-checked"
+    for hi, name in FL_BUCKETS:
+        if ratio <= hi:
+            return name
+    return ">4"
+
+
 def is_pow2(n: int) -> bool:
     return n > 0 and (n & (n - 1)) == 0
 
@@ -265,8 +300,12 @@ def build_thr(pid: str, inp, clauses) -> Case:
     ln = line("thr", pos=ql(pos), neg=ql(neg), ep=inp["ep"], en=inp["en"], sc=inp["sc"], ec=inp["ec"],
               sorted=0, metric=metric, rs=ql(rs), eps=q(eps), epst=q(epst), tl=ql(tl), tlo=ql(tlo),
               thi=ql(thi), cl=il(cl), clo=il(clo), chi=il(chi), cb=il(cb), ca=il(ca))
+    # second line: the theorem-derived bound between the float threshold and the exact model's (op `flbound`)
+    ln2 = line("flbound", pos=ql(pos), neg=ql(neg), ep=inp["ep"], en=inp["en"], sc=inp["sc"], ec=inp["ec"],
+               sorted=0, metric=metric, rs=ql(rs), u=q(U53))
+    fl_ok_inputs = fl_in_range(pos) and fl_in_range(neg)
     inp["_evals"] = 3 * len(rs)
-    case = Case(pid, inp, [ln], None, (), 0, pre)
+    case = Case(pid, inp, [ln, ln2], None, (), 0, pre)
     tags = [inp["stream"], f"cfg={inp['sc']},{inp['ec']}", f"metric={metric}",
             "exact-arith" if ex else "float-arith"]
     if inp["ep"] or inp["en"]:
@@ -306,6 +345,27 @@ def build_thr(pid: str, inp, clauses) -> Case:
                     iss.append(Issue("DISAGREE", "lower", f"{name}({r},lower) impl={tlo[k]} model={float(mlo[k])}", f"thr/{metric}/lower"))
                 if common.fr(thi[k]) != mhi[k]:
                     iss.append(Issue("DISAGREE", "higher", f"{name}({r},higher) impl={thi[k]} model={float(mhi[k])}", f"thr/{metric}/higher"))
+        # --- float-bound: |impl - model| against the bound of SA.thresholdAt_fl_error (same neighbours) or
+        # SA.thresholdAt_fl_error_lip (sorted array, any cell), for interior targets; FLBOUND_SLACK on top
+        o2 = outs[1]
+        worst = None
+        if "err" not in o2 and fl_ok_inputs:
+            f_ok, f_int, f_same = common.plist(o2["ok"]), common.plist(o2["interior"]), common.plist(o2["same"])
+            f_eps, f_lip = common.pfracs(o2["eps"]), common.pfracs(o2["epslip"])
+            for k, r in enumerate(rs):
+                a_ = common.fr(tl[k])
+                if f_ok[k] != "1" or f_int[k] != "1" or a_ is None or isinstance(a_, float) or not fl_in_range([r]):
+                    continue  # a special case applies (or may apply within rounding): sentinel values, compared above
+                bound = f_eps[k] if f_same[k] == "1" else f_lip[k]
+                d = abs(a_ - ml[k])
+                ratio = d / bound if bound > 0 else (Fraction(0) if d == 0 else Fraction(10**6))
+                worst = ratio if worst is None or ratio > worst else worst
+                if d > FLBOUND_SLACK * bound:
+                    iss.append(Issue("DISAGREE", "float-bound", f"{name}({r}) impl={tl[k]} model={float(ml[k])} differ by "
+                                     f"{float(d):.3e} > {FLBOUND_SLACK} x {float(bound):.3e} (theorem bound, "
+                                     f"{'same neighbours' if f_same[k] == '1' else 'Lipschitz'}; ratio {float(ratio):.2f})",
+                                     f"thr/{metric}/float-bound"))
+        case.tags = case.tags + ("float-bound ratio " + fl_bucket(worst),)
         for cl_ in clauses:
             vals = common.plist(o["spec." + cl_]) if o["spec." + cl_].startswith("[") else [o["spec." + cl_]]
             for k, b in enumerate(vals):
